@@ -58,7 +58,8 @@ package nsqd
 //@   modifies gReads, gReadName, gReadData, gReadErr, elems(byte)
 
 // (round 7) what Main starts its goroutines on: the TCP listener, the TCP handler and the control channels exist in every daemon New returns
-// (the preconditions of Main$2 / lookupLoop are obligations where Main starts them).
+// (the preconditions of Main$2 / lookupLoop are obligations where Main starts them), and the options in force select at least one channel per
+// queue-scan round (validated by New since the fix of the selection-count finding; queueScanLoop/requires[config]).
 //@ pred r7Built(n *NSQD) := n != nil && n.tcpListener != nil && n.tcpServer != nil && n.notifyChan != nil && n.optsNotificationChan != nil && n.exitChan != nil
 //@ immutable NSQD.tcpListener, NSQD.tcpServer
 //@ func New(opts *Options) (*NSQD, error)
@@ -66,6 +67,9 @@ package nsqd
 //@   nochan
 //@   requires opts != nil
 //@   ensures[built] result1 == nil ==> r7Built(result0)
+//   (the fix of the selection-count finding) a daemon is only built from options that select at least one channel per queue-scan round; these are the
+//   options stored by swapOpts, i.e. curOpts(result0) of the trusted getOpts stub (the link between the two is that stub's stated assumption)
+//@   ensures[selection-count-validated] result1 == nil ==> opts.QueueScanSelectionCount >= 1
 //   (round 6, area M) the HTTPS listener, if any, listens on tcp (what RealHTTPSAddr - the 403 answer of the TLS gate - relies on)
 //@   ensures[https-listener-on-tcp] result1 == nil ==> r6MHttpsOnTcp(result0)
 //@   ensures[one-lock-attempt] gDirOpens == old(gDirOpens) + 1 && (old(opts.DataPath) != "" ==> gDirOpenName == old(opts.DataPath))
